@@ -1,6 +1,6 @@
 /-
 C11 - dimensional collapse is detected per definition, applied exactly, reported once.
-Property theorems only (helper lemmas live in Proofs/Collapse.lean).
+Property theorems only (helper lemmas live in Proofs/Collapse.lean, Proofs/CollapseApply.lean, Proofs/CollapseMeasure.lean).
 Model: Model/Collapse.lean (a literal transcription of mystic/collapse.py detectors and mask filters,
 monitors.py readers, mask.py update_mask, and the collapse loop of abstract_solver._Solve).
 
@@ -39,6 +39,17 @@ DESIGN.md section 5 / C11 list, status:
                               as C16/F18).  NOT proved: the solver level (that every later evaluated point went through
                               this constraint - it needs the shared solver model S) - the implementation monitor checks
                               it on every run and shows that it FAILS on the code as it is (known findings F21-F23, F25).
+  applied_relation_exact      (measures) the CONSTRAINT that one round of CollapseWeight / CollapsePosition collapses installs
+                              (constraints.impose_measure over tools.connected, Model/CollapseMeasure.lean = C19's
+                              `Discrete.imposeMeasure` over `Clps.connected` of the pairs in the real iteration order) is
+                              proved, over any ordered field, to give every collapsed weight EXACTLY 0 - also when the
+                              position collapse of the same round moved a partner's weight onto that index (dead index =
+                              root of a collapsed pair): the removals run last - and every collapsed position pair EXACTLY
+                              equal, also after the removals (`measure_applied_weights_zero`,
+                              `measure_applied_pairs_equal`, `impose_measure_applied_exact`); the other order of the two
+                              loops breaks the weight clause: `impose_measure_other_order_witness`.  ACROSS rounds the
+                              clause is false for the code as it is (older rounds run last):
+                              `applied_weight_reweighted_by_older_round_witness` (known findings F27-F29).
 NOT modelled: collapse_cost / CollapseCost (bounds collapse), `update_mask(new=True)`, masks of mixed formats.
 -/
 import MysticVerif.Proofs.Collapse
@@ -1226,6 +1237,43 @@ theorem applied_weight_reweighted_by_older_round_witness :
     Discrete.collapseAt, unweightAt, imposeCollapse, imposeUnweighted, normalizeMass, collapseGroup, collapseStep,
     imposeMean, Discrete.mean, sumL, truthy, Discrete.absR, Discrete.rebuild, flatten, mweights, mpositions, List.modify,
     List.mapIdx_cons]
+
+/-- **Several rounds: what is still exact.**  `Collapse()` chains the constraint of every new round OUTSIDE the existing
+ones, so in the composed constraint (`applyRounds`, rounds in execution order) the OLDEST round runs last: whatever the
+newer rounds were and whatever they did to the vector, the value the cost function receives is the oldest round's
+`impose_measure` applied to some vector of at least `2*sum(npts)` numbers - so `impose_measure_applied_exact` holds for
+the oldest round's collapses at every evaluated point (its position pairs are exactly equal; its weights exactly 0
+under the hypotheses on the intermediate measure).  For the NEWER rounds the statement is false on the code as it is
+(`applied_weight_reweighted_by_older_round_witness`). -/
+theorem oldest_round_runs_last (inf : K) (npts : List Nat) (newer : List MRound) (oldest : MRound) (x y : List K)
+    (hlen : 2 * npts.sum ≤ x.length) (h : applyRounds inf npts (newer ++ [oldest]) x = some y) :
+    ∃ x', applyRounds inf npts newer x = some x' ∧ 2 * npts.sum ≤ x'.length ∧
+      applyMeasure inf npts oldest x' = some y := by
+  rw [applyRounds_snoc] at h
+  cases hx : applyRounds inf npts newer x with
+  | none => rw [hx] at h; simp at h
+  | some x' =>
+    rw [hx] at h
+    exact ⟨x', rfl, applyRounds_length inf npts newer x x' hlen hx, by simpa using h⟩
+
+/-- the oldest round's collapsed position pairs are exactly equal after ANY number of later rounds -/
+theorem oldest_round_pairs_equal (inf : K) (npts : List Nat) (newer : List MRound) (oldest : MRound) (x y : List K)
+    (hlen : 2 * npts.sum ≤ x.length) (hnd : (oldest.tracking.map (·.1)).Nodup)
+    (h : applyRounds inf npts (newer ++ [oldest]) x = some y) :
+    ∃ (x' : List K) (c c' : PM K), applyRounds inf npts newer x = some x' ∧
+      unflatten (x'.take (2 * npts.sum)) npts = some c ∧ y = flatten c' ∧ unflatten (flatten c') npts = some c' ∧
+      ∀ kv ∈ oldest.tracking, ∀ m, c[kv.1]? = some m → TrackOK m.length kv.2 → ∀ p ∈ kv.2,
+        ∃ m', c'[kv.1]? = some m' ∧ m'.length = m.length ∧ (mpositions m')[p.1]? = (mpositions m')[p.2]? := by
+  obtain ⟨x', hx', hl', hy⟩ := oldest_round_runs_last inf npts newer oldest x y hlen h
+  obtain ⟨c, h1, h2, _, h4⟩ := imposeMeasure_eq inf npts (trackGroups oldest.tracking) oldest.noweight x' hl'
+  refine ⟨x', c, imposeOn inf (trackGroups oldest.tracking) oldest.noweight c, hx', h1, ?_, ?_, ?_⟩
+  · unfold applyMeasure at hy
+    rw [h4] at hy
+    exact (Option.some.inj hy).symm
+  · have := unflatten_flatten' (imposeOn inf (trackGroups oldest.tracking) oldest.noweight c)
+    rwa [imposeOn_pts, h2] at this
+  · intro kv hkv m hm hok p hp
+    exact measure_applied_pairs_equal inf oldest c hnd kv hkv m hm hok p hp
 
 -- non-vacuity: the hypotheses hold for the witness' round (and for a star around the middle index in both orders);
 -- a triangle iterated as (1,2),(0,2),(0,1) puts the key 1 among its own members
